@@ -167,7 +167,7 @@ func C01(r *core.Run) {
 			wg.Add(1)
 			go func(c int) {
 				defer wg.Done()
-				cl := rawhttp.NewClient(t.addr, 30*time.Second)
+				cl := rawhttp.NewClient(t.addr, time.Duration(r.Pick(12, 30))*time.Second)
 				defer cl.Close()
 				for i, p := range plans[c] {
 					if i%4 == 0 { // every 4th request is a synchronised burst
